@@ -1,6 +1,6 @@
 #!/venv/bin/python
 """Regenerate MANIFEST.json from the table below (python tools/gen_manifest.py)."""
-import json, os
+import json, os, re
 HERE = os.path.dirname(os.path.dirname(os.path.abspath(__file__)))
 
 # id -> (category, technique, level text, level note, design ref)
@@ -19,6 +19,12 @@ for p in props:
     pid = p["id"]
     if pid in CLAIMED:
         cat, tech, text, note = CLAIMED[pid]
+        # coverage-guided companions (harness/covfuzz.py) registered in the property's module
+        src = open(os.path.join(HERE, "harness", "props", pid.lower() + ".py")).read()
+        cov = re.findall(r'covfuzz\.check\(CHECKS, "[\w.]+", "(\w+)"', src)
+        if cov:
+            tech += "; coverage-guided (atheris/libFuzzer driving the same Hypothesis strategy through fuzz_one_input, lena instrumented, same judge in the target) for " + ", ".join(cov)
+            text += " The generators of [%s] are additionally explored coverage-guided (libFuzzer mutating the byte string Hypothesis decodes into the strategy's choices); also sampling." % ", ".join(cov)
         checks.append({
             "property_id": pid,
             "quick_cmd": "./check %s quick" % pid,
@@ -48,11 +54,11 @@ m = {
         "name": "harness",
         "path": "harness/",
         "serves_properties": sorted(CLAIMED),
-        "kind_free_text": "Hypothesis 6.168 strategies and exhaustive enumerations producing JSON-able cases, judged by per-property reference models / differential / metamorphic oracles (harness/props/cNN.py); failures shrink to JSON replay files re-judged without Hypothesis",
+        "kind_free_text": "Hypothesis 6.168 strategies (random and, through atheris/libFuzzer + fuzz_one_input, coverage-guided) and exhaustive enumerations producing JSON-able cases, judged by per-property reference models / differential / metamorphic oracles (harness/props/cNN.py); failures shrink to JSON replay files re-judged without Hypothesis",
     }],
     "checks": checks,
     "not_applicable": na,
-    "notes": "Every check: ./check <ID> <quick|thorough>; VERIF_SEED selects the Hypothesis seed; exit 2 = harness error (never a violation). known_findings.json lists recorded defects (known) and repaired ones (fixed).",
+    "notes": "Every check: ./check <ID> <quick|thorough>; VERIF_SEED selects the Hypothesis seed; exit 2 = harness error without any violation (never reported as a violation). known_findings.json lists recorded defects (known) and repaired ones (fixed).",
 }
 if not na:
     del m["not_applicable"]
